@@ -420,6 +420,47 @@ def run(ctx) -> None:
     ctx.ob("C05.R6-state-from-latest", lat[0] if lat else cds, ok and ok2,
            "the loop state is taken from the first element of the descending (numeric, see R1) order" if ok and ok2 else
            "the loop state is not taken from the numerically highest iteration", construct="latest = sorted(..., reverse=True)[0]")
+    # the instances considered are those of THIS loop's condition: both the stage and the name parsed from the document's
+    # condition reference take part in the selection (two loops may use the same component names in different stages)
+    parsed = [n for n in source.walk_own(cds) if isinstance(n, ast.Assign) and isinstance(n.value, ast.Call)
+              and last_attr(n.value) == "ParseDataReferenceFull" and isinstance(n.targets[0], ast.Tuple) and len(n.targets[0].elts) >= 2
+              and all(isinstance(e, ast.Name) for e in n.targets[0].elts[:2])]
+    ctx.require(bool(parsed), "anchor missing: stage, name, .. = ParseDataReferenceFull(condition, ..) in compute_dowhile_state")
+    st_name, nm_name = parsed[0].targets[0].elts[0].id, parsed[0].targets[0].elts[1].id
+    filt_names = set()
+    for v in ci:
+        for c in ast.walk(v):
+            if isinstance(c, (ast.ListComp, ast.GeneratorExp)):
+                for gen in c.generators:
+                    for cond in gen.ifs:
+                        filt_names |= set(source.names_in(cond))
+    # a pre-filter on the candidates (e.g. a local list built from all_looped_ids) counts too
+    for n_ in source.walk_own(cds):
+        if isinstance(n_, ast.Assign) and isinstance(n_.value, (ast.ListComp, ast.GeneratorExp)):
+            if any(isinstance(t, ast.Name) and any(t.id in source.names_in(v) for v in ci) for t in n_.targets):
+                for gen in n_.value.generators:
+                    for cond in gen.ifs:
+                        filt_names |= set(source.names_in(cond))
+    def derived(seed: str) -> set:
+        out = {seed}
+        changed = True
+        while changed:
+            changed = False
+            for n_ in source.walk_own(cds):
+                if isinstance(n_, ast.Assign) and len(n_.targets) == 1 and isinstance(n_.targets[0], ast.Name) \
+                        and n_.targets[0].id not in out and out & set(source.names_in(n_.value)):
+                    out.add(n_.targets[0].id)
+                    changed = True
+        return out
+    st_names, nm_names = derived(st_name), derived(nm_name)
+    okf = bool(st_names & filt_names) and bool(nm_names & filt_names)
+    ctx.ob("C05.R6-state-from-latest", ci[0] if ci else cds, okf,
+           "the condition instances are selected by stage and name of the loop's own condition reference" if okf else
+           "the condition instances are selected without the %s of the loop's condition reference (%s is parsed but not used): "
+           "with two DoWhile loops whose condition components share a name (the same document imported in two stages) every "
+           "loop reports the condition / iteration of whichever loop has the highest iteration"
+           % ("stage" if not (st_names & filt_names) else "name", st_name if not (st_names & filt_names) else nm_name),
+           construct="condition_instances filter uses %s and %s" % (st_name, nm_name))
     st = [n for n in source.walk_own(cds) if isinstance(n, ast.Assign) and any(
         isinstance(t, ast.Subscript) and isinstance(t.slice, ast.Constant) and t.slice.value == "state" for t in n.targets)]
     ok = bool(st) and isinstance(st[0].value, ast.Dict) and {k.value for k in st[0].value.keys if isinstance(k, ast.Constant)} == {"currentCondition", "currentIteration"}
